@@ -11,10 +11,12 @@ Record case := mkCase {
   c_ops : list wop;
   c_expect : Z }.          (* digest of the implementation's flattened observations *)
 
+(* typed errors (NoPositionError, AccumDoesNotExistError, NegativeRewardsAdditionError, ZeroSharesError) are told
+   apart; the untyped ones (errors.New / fmt.Errorf) are one class - their text is not an observable *)
 Definition err_code (e : err) : Z :=
   match e with
-  | EAccumExists => 1 | EBadAccumName => 2 | ENoAccum => 3 | ENoPosition => 4 | EAddNonPositive => 5
-  | ERemoveNonPositive => 6 | ERemoveTooMany => 7 | EZeroShares => 8 | ENegativeRewards => 9
+  | ENoAccum => 3 | ENoPosition => 4 | EZeroShares => 8 | ENegativeRewards => 9
+  | EAccumExists | EBadAccumName | EAddNonPositive | ERemoveNonPositive | ERemoveTooMany => 5
   end.
 
 Definition flat_coins (c : coins) : list Z :=
